@@ -87,3 +87,12 @@ void jcsa_use_bigint(const std::string& s, std::string& out)
     bigint c = -a; c = a + b; c = a - b; c = a * b; c = a / b; c = a % b;
     bigint q, r; a.divide(b, q, r, true);
 }
+
+// cursor -> basic_json builders (to_json_single / to_json_container)
+void jcsa_use_cursor_to_json(const std::string& s, std::istream& is)
+{
+    using namespace jsoncons;
+    json j = decode_json<json>(s);
+    ojson o = decode_json<ojson>(is);
+    (void)j; (void)o;
+}
